@@ -85,6 +85,10 @@ fn choose_up(num: i128, den: i128, mode: Mode, negative: bool, r1_quot_even: boo
     }
 }
 
+pub fn choose_up_pub(num: i128, den: i128, mode: Mode, negative: bool, r1_quot_even: bool) -> bool {
+    choose_up(num, den, mode, negative, r1_quot_even)
+}
+
 /// NudgeToCalendarUnit (no zone)
 pub fn nudge_calendar(sign: i128, dur: Internal, dest: i128, r: Dt, inc: i128, unit: U, mode: Mode) -> Result<Nudge, RErr> {
     let (r1, r2, start_d, end_d) = match unit {
